@@ -401,6 +401,17 @@ def rule_pipeline(ctx, rid):
             for ls in e.state.loops:
                 if ls.kind != 'for':
                     continue
+                ent = ls.entry_env.get(name)
+                stores_here = any(f[0] == 'setitem' and f[5] == name for kind, b in ls.body_states for l2 in b.loops
+                                  for k2, b2 in l2.body_states for f in b2.effects)
+                if ent is None and stores_here:
+                    bad[c_am] = 'the amplitude array %s is written before it is created (NameError for every input)' % name
+                if ent is not None and ent[0] == 's' and str(ent[1]).startswith('global:'):
+                    bad[c_am] = 'the amplitude array %s is written before it is created (NameError for every input)' % name
+                elif ent is not None and ent[0] == 'call' and ent[1] in ('numpy.zeros_like', 'numpy.empty_like', 'numpy.ones_like') and ent[2]:
+                    r_, l_ = _imf_root(ent[2][0])
+                    if r_ is None or l_ != is2d:
+                        bad[c_am] = 'the amplitude array is allocated like %s, not like the (lifted) IMFs' % show(ent[2][0])[:50]
                 for kind, b in ls.body_states:
                     for l2 in b.loops:
                         if l2.kind != 'for' or l2.node is ls.node:
